@@ -43,6 +43,13 @@ def run_property(prop, tier, seed, repo=None, write=True, only_rule=None):
             print(f"   SELF-VALIDATION missed: {m}")
         for m in sv["neutral_alarms"]:
             print(f"   SELF-VALIDATION neutral twin alarmed: {m}")
+        from hgsa import neutral
+
+        nt = neutral.run_property(prop)
+        rep.extra["neutral_transformations"] = nt
+        print(f"   behaviour-preserving transformations of the whole package: {nt['silent']}/{nt['transformations']} silent")
+        for m in nt["problems"]:
+            print(f"   NEUTRAL-TRANSFORMATION alarmed: {m}")
     if os.environ.get("HGSA_NO_EVIDENCE"):   # development runs against scratch variants must not touch the evidence files
         write = False
     return rep.finish(seed=seed, write=write)
